@@ -89,7 +89,7 @@ func sToHeader(h *http.Header, s *string) error {
 			return errors.New(fmt.Sprintf("Odd header: %v", splat))
 		}
 		hk := splat[0]
-		h.Set(hk, strings.Trim(splat[1], "[]"))
+		h.Add(hk, strings.Trim(splat[1], "[]"))
 	}
 
 	return nil
@@ -104,17 +104,14 @@ func headerToS(h *http.Header) string {
 		keys = append(keys, k)
 	}
 	sort.Strings(keys)
-	s := ""
-	i := 0
-	keysLen := len(keys)
+	// One item per value: a name that occurs several times (Set-Cookie, Link, Vary ...) keeps all its values.
+	items := make([]string, 0, len(keys))
 	for _, k := range keys {
-		s += k + ":[" + h.Get(k) + "]"
-		if i != keysLen-1 {
-			s += ","
+		for _, v := range (*h)[k] {
+			items = append(items, k+":["+v+"]")
 		}
-		i++
 	}
-	return "{" + s + "}"
+	return "{" + strings.Join(items, ",") + "}"
 }
 
 func encodeCustom(sm *StorageMetadata) string {
